@@ -108,6 +108,8 @@ struct DocModel {
     /// messages of ignored diagnostics; `exact` while the text is unchanged since the ignore
     ignored: Vec<Diag>,
     text_changed_since_ignore: bool,
+    /// document version as the editor counts it: 1 at didOpen, +1 with every change
+    version: i64,
 }
 
 struct World {
@@ -117,6 +119,8 @@ struct World {
     docs: Vec<DocModel>,
     version: i64,
     config_idx: usize,
+    /// highest version ever sent per document URI (versions restart when a document is re-opened)
+    max_versions: [i64; 4],
 }
 
 impl World {
@@ -167,6 +171,7 @@ fn new_world() -> Result<World, LspError> {
         docs: vec![DocModel::default(); DOCS.len()],
         version: 1,
         config_idx: 0,
+        max_versions: [0; 4],
     })
 }
 
@@ -192,7 +197,14 @@ fn normalise(batch: &[Op], w: &World) -> Vec<Op> {
             // only when it can stand alone
             let applicable = match op {
                 // open finding KF-C09-untitled: a configuration change cannot refresh an untitled buffer
-                Op::Config { .. } | Op::ConfigAfterPull { .. } => !(0..DOCS.len()).any(|i| !DOCS[i].2 && w.docs[i].open),
+                // open finding KF-C09-untitled: an untitled buffer cannot be re-read, so a change
+                // of how documents are *parsed* does not reach it; switching rules or the dialect
+                // only replaces the linter and must work for such buffers too
+                Op::Config { idx } | Op::ConfigAfterPull { idx, .. } => {
+                    let untitled_open = (0..DOCS.len()).any(|i| !DOCS[i].2 && w.docs[i].open);
+                    let parses = |i: usize| CONFIGS[i % CONFIGS.len()].contains("isolateEnglish");
+                    !(untitled_open && parses(w.config_idx) != parses(*idx as usize))
+                }
                 Op::EditUserDict { .. } => true,
                 Op::AddUser { doc } | Op::AddFile { doc } => {
                     let i = *doc as usize % DOCS.len();
@@ -306,7 +318,7 @@ fn exec_batch(w: &mut World, batch: &[Op], salt: u64, ctx: &mut CaseCtx) -> Resu
             Op::Open { doc, text } => {
                 let i = *doc as usize % DOCS.len();
                 let t = comment_wrap(DOCS[i].1, TEXTS[*text as usize % TEXTS.len()]);
-                w.docs[i] = DocModel { open: true, text: t.clone(), ..Default::default() };
+                w.docs[i] = DocModel { open: true, text: t.clone(), version: 1, ..Default::default() };
                 w.s.notify("textDocument/didOpen", json!({"textDocument": {"uri": uris[i], "languageId": DOCS[i].1, "version": 1, "text": t}}))?;
                 expect_pubs[i] += 1;
                 cfg_ops.push((k, i));
@@ -318,8 +330,12 @@ fn exec_batch(w: &mut World, batch: &[Op], salt: u64, ctx: &mut CaseCtx) -> Resu
                     w.docs[i].text_changed_since_ignore = true;
                 }
                 w.docs[i].text = t.clone();
-                w.version += 1;
-                w.s.notify("textDocument/didChange", json!({"textDocument": {"uri": uris[i], "version": w.version}, "contentChanges": [{"text": t}]}))?;
+                w.docs[i].version += 1;
+                if w.docs[i].version <= w.max_versions[i] {
+                    ctx.class("change_with_a_version_already_used_before_the_document_was_reopened");
+                }
+                w.max_versions[i] = w.max_versions[i].max(w.docs[i].version);
+                w.s.notify("textDocument/didChange", json!({"textDocument": {"uri": uris[i], "version": w.docs[i].version}, "contentChanges": [{"text": t}]}))?;
                 expect_pubs[i] += 1;
                 cfg_ops.push((k, i));
             }
@@ -411,8 +427,8 @@ fn exec_batch(w: &mut World, batch: &[Op], salt: u64, ctx: &mut CaseCtx) -> Resu
                 // every open document is re-checked (same text): auto-answer mode, one at a time
                 for i in 0..DOCS.len() {
                     if w.docs[i].open {
-                        w.version += 1;
-                        let (uri, t, v) = (uris[i].clone(), w.docs[i].text.clone(), w.version);
+                        w.docs[i].version += 1;
+                        let (uri, t, v) = (uris[i].clone(), w.docs[i].text.clone(), w.docs[i].version);
                         w.s.change(&uri, v, &t)?;
                     }
                 }
@@ -431,9 +447,9 @@ fn exec_batch(w: &mut World, batch: &[Op], salt: u64, ctx: &mut CaseCtx) -> Resu
                 // an edit (same text, new version) reaches the server first and pulls them
                 let j = (0..DOCS.len()).map(|k| (*doc as usize + k) % DOCS.len()).find(|&j| w.docs[j].open && DOCS[j].2);
                 if let Some(j) = j {
-                    w.version += 1;
+                    w.docs[j].version += 1;
                     let pubs = w.s.publications_for(&uris[j]);
-                    w.s.notify("textDocument/didChange", json!({"textDocument": {"uri": uris[j], "version": w.version}, "contentChanges": [{"text": w.docs[j].text}]}))?;
+                    w.s.notify("textDocument/didChange", json!({"textDocument": {"uri": uris[j], "version": w.docs[j].version}, "contentChanges": [{"text": w.docs[j].text}]}))?;
                     let u = uris[j].clone();
                     w.s.pump_until(T, "publication of the edit that precedes the configuration notification", |s| s.publications_for(&u) > pubs)?;
                     expect_pubs[j] += 1;
@@ -447,6 +463,9 @@ fn exec_batch(w: &mut World, batch: &[Op], salt: u64, ctx: &mut CaseCtx) -> Resu
                 }
             }
             Op::Config { idx } => {
+                if (0..DOCS.len()).any(|i| !DOCS[i].2 && w.docs[i].open) {
+                    ctx.class("configuration_change_with_an_untitled_buffer_open");
+                }
                 note_config_change(w, *idx as usize % CONFIGS.len());
                 w.config_idx = *idx as usize % CONFIGS.len();
                 let settings = settings_for(&w.sb, w.config_idx);
@@ -761,10 +780,39 @@ pub fn history_strategy(max_batches: usize) -> BoxedStrategy<History> {
         2 => (any::<u8>(), 0u8..4, 0u8..4).prop_map(|(idx, a, b)| vec![Op::Config { idx }, Op::Close { doc: a }, Op::Close { doc: b }]),
         1 => (any::<u8>(), 0u8..4).prop_map(|(idx, doc)| vec![Op::ConfigAfterPull { idx, doc }]),
     ];
-    (first, proptest::collection::vec((batch, any::<u64>()), 0..max_batches))
-        .prop_map(|(f, mut rest)| {
+    // a document is edited, deleted (or closed) and opened again: the editor starts its version
+    // numbers over
+    let reopen = (0u8..3, any::<u8>(), any::<u8>(), any::<u8>(), 0u8..3, any::<u8>()).prop_map(|(doc, t1, t2, t3, how, t4)| {
+        let end = match how {
+            0 => Op::Delete { doc },
+            1 => Op::Close { doc },
+            _ => {
+                if doc == 2 {
+                    Op::DeleteDir { slash: t4 & 1 == 1 }
+                } else {
+                    Op::Delete { doc }
+                }
+            }
+        };
+        vec![
+            vec![Op::Open { doc, text: t1 }],
+            vec![Op::Change { doc, text: t2 }],
+            vec![Op::Change { doc, text: t3 }],
+            vec![Op::Change { doc, text: t1 }],
+            vec![end],
+            vec![Op::Open { doc, text: t2 }],
+            vec![Op::Change { doc, text: t4 }],
+            vec![Op::Change { doc, text: t3 }],
+        ]
+    });
+    let piece = prop_oneof![
+        8 => (batch, any::<u64>()).prop_map(|b| vec![b]),
+        1 => (reopen, any::<u64>()).prop_map(|(bs, salt)| bs.into_iter().map(|b| (b, salt)).collect::<Vec<_>>()),
+    ];
+    (first, proptest::collection::vec(piece, 0..max_batches))
+        .prop_map(|(f, rest)| {
             let mut batches = vec![f];
-            batches.append(&mut rest);
+            batches.extend(rest.into_iter().flatten());
             History { batches }
         })
         .boxed()
@@ -874,6 +922,7 @@ pub fn run(run: &mut Run) {
     run.require_class("scheduled_histories", "handlers_completed_out_of_arrival_order", (n / 3) as u64);
     run.require_class("scheduled_histories", "close_or_delete_in_a_concurrent_batch", (n / 10) as u64);
     run.require_class("scheduled_histories", "configuration_change_racing_with_close", (n / 20) as u64);
+    run.require_class("scheduled_histories", "change_with_a_version_already_used_before_the_document_was_reopened", (n / 20) as u64);
     run.require_class("scheduled_histories", "settings_pulled_before_the_change_notification", (n / 20) as u64);
     run.require_class("scheduled_histories", "deletion_of_a_path_that_prefixes_an_open_document", (n / 20) as u64);
 }
